@@ -133,6 +133,18 @@ def classify(b, run):
             continue
         if kind is None:
             infra.append("verus error: " + msg + " " + _first_span(d))
+            # structured copy for the driver's repair loop (clause no longer type-checks / callee not extracted)
+            item = {"msg": msg, "clause": None, "piece": None}
+            for sp in d.get("spans", []):
+                if sp.get("file_name") and os.path.basename(sp["file_name"]) != os.path.basename(b.path):
+                    continue
+                loc = locate(b, char_off(sp["byte_start"]))
+                if loc[0] == "clause" and loc[1] is not None and item["clause"] is None:
+                    item["clause"] = loc[1]
+                    item["piece"] = loc[2]
+                elif loc[0] == "code" and item["piece"] is None:
+                    item["piece"] = loc[1]
+            run.infra_items = getattr(run, "infra_items", []) + [item]
             continue
         spans = d.get("spans", [])
         located = []
